@@ -64,7 +64,13 @@ class PipelineProp(Prop):
             yield self.gen_case(rng)
 
     def run_impl(self, case):
-        return P.run_pipeline(case)
+        return P.run_pipeline({**case, "twice": True})
+
+    def judge(self, case, obs):
+        if isinstance(obs, dict) and obs.get("second_call"):
+            return (f"asking the same BuildAssembly for its fused assemblies a second time changed the answer "
+                    f"(cuts, breaks, joins / rows): {obs['second_call']}")
+        return super().judge(case, obs)
 
     def term(self, case, obs):
         return P.case_term(case, obs)
